@@ -111,12 +111,12 @@ is empty). One run of a check does, in order:
    (package variables of sync / map / channel type and every use of them), goroutine-structure facts
    (every `go` statement with its enclosing loops and the WaitGroup discipline around it), the
    base64 / Argon2 / SHA-1 index expressions as Lean `Nat` kernels with explicit `% 2^bits`, the
-   guard clauses of every `Key`, a hash-transcript IR of the KDF bodies (`md5crypt.Encrypt`,
-   `sha2crypt.Encrypt`/`duplicate`, `cryptoutil.Permute`, the HMAC loop of `sha1.Key`), a structured IR of
-   `crypt.Check` / `RegisterHash` and of the whole lexer and parser (`lexPrefix`, `lexFragment`, `run`, `Parse`, …),
-   the flow IR of every `Check`/`Params`/`NewHash` (locals of the
-   package's own struct types named after the type), and the slice-effect IR of every `Key` with
-   module-internal callees inlined, pointer stores, and strong updates merged at block exits.
+   guard clauses of every `Key`, the flow IR of every `Check`/`Params`/`NewHash` (locals of the
+   package's own struct types named after the type), the slice-effect IR of every `Key` with
+   module-internal callees inlined, pointer stores, and strong updates merged at block exits, and the
+   FUNCTION BODIES listed in §0.1a as small structured programs (one IR per kind of code, each with a
+   Lean interpreter whose outcomes are ok / panic / `stuck`; a statement the translator does not
+   understand becomes an explicit `.unknown "<source text>"` node, on which the interpreter is stuck).
    Output is buffered and written only if the whole translation succeeded; a source the translator
    no longer understands is a broken obligation.
 2. forbidden-token scan (`sorry`, `admit`, `native_decide`, `axiom`, `implemented_by`, `unsafe`,
@@ -151,6 +151,31 @@ Prim {sizes['Prim']/1000:.1f} k, Proofs {sizes['Proofs']/1000:.1f} k, Props {siz
 {lines_of('harness/*.go')/1000:.1f} k lines of harness (Go), {(lines_of('lib/*.py'))/1000:.1f} k lines of runner (python3). A clean `lake build` takes
 about three and a half minutes on 16 cores (the DES table facts dominate); on an unchanged tree every quick check
 takes between 1 s and 40 s.
+
+### 0.1a Which code is regenerated, and which is a hand-written model
+
+"Regenerated" means: on every run `gogen` re-reads the function body from `/repo` and writes it as a
+program into `lean/GoCrypt/Gen/`; a Lean interpreter gives the program its meaning; a theorem (cited
+as an obligation of the properties named) states that the interpretation equals the hand-written model
+the property theorems speak about, for every input. A change to the body changes the program text and
+the equality proof stops checking, whatever the tests sample. Variables are identified by declaration
+(slots or canonical names), source positions appear only in comments: renaming locals, moving
+functions or adding comments leaves the programs unchanged (checked for each translator).
+
+| Go source | regenerated as | equality theorems | cited by |
+|---|---|---|---|
+| `crypt.go` `Check`, `RegisterHash`; `hash/parse/lex.go`, `parse.go` (lexer goroutine + channel as producer list, `Parse`) | structured IR `SFlow`/`SFlow2` | `Props/DispatchFlow.lean`, `Props/ParseFlow.lean` | C07, C11, C05, C20 |
+| every scheme's `Check` / `Params` / `NewHash` | flow IR | `Props/FlowModel.lean` (evaluates to `Scheme.check/params/newHash`), `secretSafe'` decided on it | C01, C02, C06, C12, C19 |
+| every scheme's `Key`: guard clauses | guard IR | `guards_iff_accepts_⟨S⟩` | C14, C01 |
+| every scheme's `Key`: slice effects | slice IR | `Props/C13IR.lean`, `C13Sound.lean` | C13 |
+| `md5crypt.Encrypt`, `sha2crypt.Encrypt`/`duplicate`, `cryptoutil.Permute`, HMAC loop of `sha1.Key` | hash-transcript IR `HashIR` | `Props/KdfIR.lean` | C03, C05 |
+| `descrypt.Key`/`EncodeInt`/`DecodeInt`, `desext.key`/`Key`, `des.Key`, `nthash.Key`/`encodePassword`, `sunmd5.Key` (coin-toss loop, closure lifted), `bcrypt.Key`/`encode`/`setup` glue, the `Key` tails of md5/sha256/sha512/sha1 | slot-based hash-transcript IR `HashIR2` | `Props/KdfIR2.lean` (`*_key_tail_ir_eq_derive`: = `Scheme.<s>.derive`) | C03, C01, C12, C05 |
+| `hash/base64le`: `Encode`, `EncodeToString`, `EncodedLen`, `DecodeString`, `Decode`, `decodeQuantum`, `assemble32/64`, `DecodedLen` | buffer IR (heap of byte buffers, slices as windows) | `Props/B64IR.lean`, `B64IRNoPanic.lean` | C16, C05 |
+| `hash/base64le`: `NewEncoding`, `WithPadding`, `Strict`; `(*encoder).Write/Close`, `NewEncoder`, `(*decoder).Read`, `(*newlineFilteringReader).Read`, `NewDecoder` | stream IR `SIR` (object store, scripted `io.Reader`/`io.Writer` as external objects, calls into the regenerated `Encode`/`Decode`) | `Props/B64IRCtor.lean`, `SIREncoder.lean`, `SIRDecoder.lean` | C16, C17 |
+| `hash/typeinfo.go`: `getRawTypeInfo` (tag loop, embedded structs), `(*typeInfo).field` (`sort.Slice` = any sorted permutation), `normalize`, `indirectType`, cold path of `getTypeInfo` | type-info IR `TIIR` (records behind pointers, `reflect.Type` as operations over struct descriptions) | `Props/TypeInfoIR.lean` | C10, C20, C18 |
+| constants, DES / permutation / alphabet tables, struct shapes and text codecs, `init` registrations, import / shared-state / goroutine-structure facts, index kernels (`indexAlpha`, `phi`, base64 shift/mask expressions, `randRounds`) | Lean definitions | used directly by the models | all |
+
+Still hand-written (tied by the correspondence suites only): the `Marshal`/`Unmarshal` walkers (`Model/Codec.lean`), the Argon2 fill loop and BLAKE2b plumbing (`Model/Kdf/Argon2.lean`; `indexAlpha`/`phi` are regenerated), the DES rounds (`descrypt.Encrypt`; its tables are regenerated and the model is proved equal to FIPS 46-3), `hashutil.Encoding` and the salt generators (`randSymbols`), the warm path of the type cache and the concurrency protocol of the registry (`Model/TypeCache.lean`, `Model/Conc.lean`, tied by measured protocol facts), and the hash/cipher primitives that live outside the repository (MD4, MD5, SHA-1/2, Blowfish, BLAKE2b: `Prim/`, validated differentially).
 
 ### 0.2 Per property
 
